@@ -29,7 +29,7 @@ def props_of(rec):
         return {"C05"}
     if c in ("name_missing", "name_wrong"):
         return {"C29"}
-    if c in ("ref", "handle_collision"):
+    if c in ("ref", "handle_collision", "call_panicked"):
         out.add(space_prop.get(sp, "C06"))
     if c in ("invalid", "encode_panic", "parse_fail", "conv_refused_on_local", "conv_accepted_on_import"):
         out.add(space_prop.get(camp, "C06"))
